@@ -380,6 +380,8 @@ class Interp:
         self.store_map: dict[tuple, Any] = {}
         self._order = 0
         self.func_stack: list[str] = []
+        self.closure_decorators: dict[str, list] = {}
+        self.reads: list[tuple] = []  # (base, idx, loops, func) of every subscript read of a symbolic array
         self.loop_cases = None  # callback(var, lo, hi, node) -> [(label, value)] | None
         self.case_stack: list[tuple[str, str]] = []
         self.depth = 0
@@ -679,6 +681,7 @@ class Interp:
                     if isinstance(tgt, Closure):
                         tgt.decorators.append(("overloaded_by", (c,), kwargs))
                 c.decorators.append((base, args, kwargs))
+                self.closure_decorators.setdefault(c.qualname, []).append((base, args, kwargs))
                 continue
             dec = self.eval(d, env)
             val = self.call(dec, (val,), {}, d)
@@ -940,6 +943,9 @@ class Interp:
         if isinstance(it, (tuple, list, Vec, range)) or isinstance(it, dict):
             seq = list(it.items if isinstance(it, Vec) else it)
             self._loop_concrete(st, env, seq)
+            return
+        if isinstance(it, Model) and "__iter__" in it._attrs:
+            self._loop_concrete(st, env, list(it._attrs["__iter__"]()))
             return
         if isinstance(it, SymArray) and False:
             pass
@@ -1558,6 +1564,7 @@ class Interp:
                         k = sp.Function("slice")(*[sp.Symbol("None") if x is None else sp.sympify(x) for x in k[1:]])
                 key2.append(k)
             view = base.sub(tuple(key2))
+            self.reads.append((view.base, tuple(view.idx), tuple(self.loops), self.func_stack[-1] if self.func_stack else ""))
             # a read of a cell that was stored earlier in the same iteration sees the store
             k3 = (view.base, tuple(sp.sympify(i) for i in view.idx), tuple(id(l) for l in self.loops))
             if k3 in self.store_map:
